@@ -15,7 +15,7 @@ ASSUMPTIONS = [
     "theorems are about Model.Root (reads only through root_read; independence of everything outside); tie to parser.go/file.go/filepath.go is "
     "this run: status/stdout while decoys vary, and the system-call trace",
 ]
-RULE = ("directory trees with a root and decoy layer files outside it; inputs inside the root reach for the decoys through $parent with .., "
+RULE = ("directory trees with a root and decoy layer files outside it (in a sibling directory named outside, or root2/root-old/roots/rootsub: names that extend the root's); inputs inside the root reach for the decoys through $parent with .., "
         "absolute paths, wildcards, filename chains, relative/absolute/chained symlinks and directory symlinks; root spellings sub, ., .., nested "
         "SetRoot (library), and / (control: then the decoy is legitimately readable); each layout run with 3 decoy variants (original, rewritten, "
         "removed): exit status and stdout must be identical, and strace must show no successful open of a decoy file; non-trivial = the input "
@@ -25,11 +25,14 @@ ATTACKS = ["parent_dotdot", "parent_abs", "parent_wild", "symlink_rel", "symlink
            "input_outside", "input_dotdot", "benign", "benign_chain", "parent_list"]
 
 
-def build(base, attack, rng, variant):
+OUTNAMES = ["outside", "root2", "root-old", "roots", "rootsub"]
+
+
+def build(base, attack, rng, variant, outname="outside"):
     """creates base/root, base/outside; returns (cwd, args, reaches)"""
     shutil.rmtree(base, ignore_errors=True)
     root = os.path.join(base, "root")
-    out = os.path.join(base, "outside")
+    out = os.path.join(base, outname)
     os.makedirs(os.path.join(root, "sub"))
     os.makedirs(out)
     secret = {"original": {"secret": "S1", "n": 1}, "rewritten": {"secret": "CHANGED", "n": 2, "more": [1]}}.get(variant)
@@ -43,32 +46,32 @@ def build(base, attack, rng, variant):
     reaches = True
     target = "in.yaml"
     if attack == "parent_dotdot":
-        open(inp, "w").write(gen.emit("yaml", [{"$parent": "../outside/decoy", "x": 1}]))
+        open(inp, "w").write(gen.emit("yaml", [{"$parent": "../%s/decoy" % outname, "x": 1}]))
     elif attack == "parent_abs":
         open(inp, "w").write(gen.emit("yaml", [{"$parent": os.path.join(out, "decoy"), "x": 1}]))
     elif attack == "parent_wild":
-        open(inp, "w").write(gen.emit("yaml", [{"$parent": "../outside/dec*", "x": 1}]))
+        open(inp, "w").write(gen.emit("yaml", [{"$parent": "../%s/dec*" % outname, "x": 1}]))
     elif attack == "parent_list":
-        open(inp, "w").write(gen.emit("yaml", [{"$parent": ["base", "../outside/decoy2"], "x": 1}]))
+        open(inp, "w").write(gen.emit("yaml", [{"$parent": ["base", "../%s/decoy2" % outname], "x": 1}]))
     elif attack == "symlink_rel":
-        os.symlink("../outside/decoy.yaml", inp)
+        os.symlink("../%s/decoy.yaml" % outname, inp)
     elif attack == "symlink_abs":
         os.symlink(os.path.join(out, "decoy.yaml"), inp)
     elif attack == "symlink_chain":
         os.symlink("hop.yaml", inp)
-        os.symlink("../outside/decoy.yaml", os.path.join(root, "hop.yaml"))
+        os.symlink("../%s/decoy.yaml" % outname, os.path.join(root, "hop.yaml"))
     elif attack == "dir_symlink":
-        os.symlink("../outside", os.path.join(root, "d"))
+        os.symlink("../" + outname, os.path.join(root, "d"))
         target = "d/decoy.yaml"
     elif attack == "filename_chain_link":
         # in.child.yaml inherits from in.* by filename; in.yaml is a link that leaves the root
-        os.symlink("../outside/decoy.yaml", inp)
+        os.symlink("../%s/decoy.yaml" % outname, inp)
         open(os.path.join(root, "in.child.yaml"), "w").write(gen.emit("yaml", [{"child": 1}]))
         target = "in.child.yaml"
     elif attack == "input_outside":
         target = os.path.join(out, "decoy.yaml")
     elif attack == "input_dotdot":
-        target = "../outside/decoy.yaml"
+        target = "../%s/decoy.yaml" % outname
     elif attack == "benign":
         open(inp, "w").write(gen.emit("yaml", [{"$parent": "base", "x": 1}]))
         reaches = False
@@ -134,22 +137,27 @@ def run(ctx):
     evals = 0
     seen = set()
 
+    def outname_of(i):
+        # the directory outside the root: half the time its name extends the root's name (root2, root-old, roots, rootsub)
+        return OUTNAMES[0] if i % 2 == 0 else OUTNAMES[1 + (i // 2) % (len(OUTNAMES) - 1)]
+
     def one(i):
         a, s = picks[i]
         base = os.path.join(ctx.work, "t%d" % i)
         res = []
         for variant in ("original", "rewritten", "removed"):
-            root, out, target, reaches = build(base, a, rng, variant)
+            root, out, target, reaches = build(base, a, rng, variant, outname_of(i))
             cwd, args = invocations(root, out, target, s)
             res.append(traced(ctx, cwd, args))
         # control: with the whole file system as root the decoy may be read (shows the attack is real)
-        root, out, target, reaches = build(base, a, rng, "original")
+        root, out, target, reaches = build(base, a, rng, "original", outname_of(i))
         cwd, args = invocations(root, out, target, s)
         ctl = core.cli(os.path.join(ctx.bindir, "bkl"), ["-f", "json"] + args[2:], cwd)
         shutil.rmtree(base, ignore_errors=True)
-        return a, s, reaches, res, ctl
+        return a, s, reaches, res, ctl, outname_of(i)
     results = core.pmap(one, range(len(picks)), workers=8)
-    for a, s, reaches, res, ctl in results:
+    for a, s, reaches, res, ctl, outname in results:
+        dist["outside_named_" + outname] = dist.get("outside_named_" + outname, 0) + 1
         evals += 4
         k = a + ("_ok" if res[0][0] == 0 else "_refused")
         dist[k] = dist.get(k, 0) + 1
@@ -171,7 +179,7 @@ def run(ctx):
         if reaches:
             seen.add((a, s))
         if why and len(ctx.violations) < 5:
-            ctx.violations.append({"name": "case-%s-%s" % (a, s), "property": "C18", "kind": "failing-input", "why": why, "attack": a, "root_spelling": s,
+            ctx.violations.append({"name": "case-%s-%s-%s" % (a, s, outname), "property": "C18", "kind": "failing-input", "why": why, "attack": a, "root_spelling": s, "outside_name": outname,
                                    "runs": [{"rc": r[0], "stdout": r[1].decode("utf-8", "replace")[:300], "stderr": r[2][-200:], "opened": r[3]} for r in res],
                                    "class": "c18-escape"})
     # library: nested SetRoot through the harness
@@ -190,7 +198,7 @@ def replay(ctx, payload):
     bad = 0
     outs = []
     for variant in ("original", "rewritten", "removed"):
-        root, out, target, reaches = build(base, a, rng, variant)
+        root, out, target, reaches = build(base, a, rng, variant, payload.get("outside_name", "outside"))
         cwd, args = invocations(root, out, target, s)
         r = traced(ctx, cwd, args)
         print(variant, r)
